@@ -735,9 +735,9 @@ func genCase(t *rapid.T) Case {
 		// the case is a sequence of Opens: packages with tens of thousands of distinct attribute values come first
 		c.Pre = genPre(t)
 	}
-	// (a) 60%, (b) 17.5% + 5% adversarial relationship ids, (c) 5% forged zip metadata + 12.5% other container faults
+	// (a) 53%, (b) 15.5% + 4.5% adversarial relationship ids, (c) 4.5% forged zip metadata + 11% other container faults, (o) 11%
 	k := 17
-	switch m := pick(t, "generator", 40); {
+	switch m := pick(t, "generator", 45); {
 	case m < 24:
 		k = 0
 	case m < 31:
@@ -746,8 +746,12 @@ func genCase(t *rapid.T) Case {
 		k = 15
 	case m < 35:
 		k = 16
+	case m >= 40:
+		k = 18
 	}
 	switch {
+	case k == 18: // (o) the optional parts as other producers write them + a drawn script of follow-up calls (optparts.go)
+		genOptCase(t, &c)
 	case k < 11: // (a) grammar + faults on the main part
 		c.Gen = "a"
 		nf := []int{0, 0, 1, 1, 1, 1, 2, 2, 3}[pick(t, "nfaults", 9)]
